@@ -3,8 +3,9 @@
    (real number) instance.  NOT proved (and not claimed): the topological fact that a non-zero
    crossing number means "enclosed" for a simple polygon (Jordan curve theorem); the crossing
    number written with exact cross products is taken as the specification of inside. *)
-From Coq Require Import Reals List ZArith Permutation Lra.
-From Sdfx Require Import Num.Ops Num.RInst Geo.Vec Geo.Box Geo.BoxR Sdf.Poly Sdf.PolyR Sdf.PolyTreeR.
+From Coq Require Import Reals List ZArith Permutation Lra Floats.
+From Sdfx Require Import Num.Ops Num.RInst Geo.Vec Geo.Box Geo.BoxR Sdf.Poly Sdf.PolyR Sdf.PolyTreeR Sdf.PolyClipR.
+From Sdfx Require Import Num.FInst Sdf.C04Corr.
 Import ListNotations.
 Open Scope R_scope.
 
@@ -107,6 +108,41 @@ Theorem C04_winding_clipped_check_sound : forall tree segs chains,
 Proof. exact winding_clipped_check_sound. Qed.
 Print Assumptions C04_winding_clipped_check_sound.
 
+(* (7) PARTIAL.  The model of Box2.lineIntersect / tAppend / Snap: every piece it returns is a
+   sub-segment of the line (parameters 0 <= s <= t <= 1), inside the box, oriented like the line -
+   under the hypothesis that Snap moves no candidate point (each candidate lies exactly on a box
+   side or farther than the tolerance 1e-9 from it).
+   NOT proved (the gap to "qt_build produces a well_clipped family"): completeness - that the
+   pieces of the four children chain up to the parent piece with none lost or doubled - which also
+   needs the separation hypothesis that distinct crossing parameters are at least `tolerance`
+   apart (tAppend merges closer ones, so the unconditional statement is false; the corpus polygon
+   near-split-vertex-5e-10 is a counterexample on the real code).  On every tested polygon the
+   gap is closed by the certificate instead: the model rebuilds the dumped tree bit for bit and
+   well_clipped_check accepts that tree. *)
+Theorem C04_clip_correct_partial : forall (a : Box2 ROps) (l : Seg ROps) (P Q : V2 ROps),
+  snap_inert a l -> line_intersect a l = Some (P, Q) ->
+  exists s t, in01 s /\ in01 t /\ s <= t /\ P = pt (fst l) (snd l) s /\ Q = pt (fst l) (snd l) t /\
+              box2_contains a P = true /\ box2_contains a Q = true.
+Proof. exact clip_sound_partial. Qed.
+Print Assumptions C04_clip_correct_partial.
+Example C04_clip_hyp_satisfiable : snap_inert exc_box exc_seg.
+Proof. exact exc_snap_inert. Qed.
+
+(* The pinned commit violated the property.  Witness (float64 instance of the model, evaluated by
+   the kernel): for the edge of the 10-vertex star arriving at the inner vertex with
+   y = -0.2351141009169893 the pinned clipping recomputed the end point as u + v*1, one ulp off;
+   at the point (-0.809..., -0.2351141009169893), level with that vertex, the clipped piece then
+   counts as an upward crossing (1) which the edge itself does not make (0); the repaired
+   clip_pt returns the vertex itself.  Replayed on the implementation: corpus/C04.json. *)
+Theorem C04_pinned_clip_refuted :
+  exists (l : Seg FOps) (p : V2 FOps),
+    v2same (@clip_pt_pinned FOps l 1%float) (snd l) = false /\
+    @winding FOps (@new_line_info FOps (fst l, @clip_pt_pinned FOps l 1%float)) p = 1%Z /\
+    @winding FOps (@new_line_info FOps l) p = 0%Z /\
+    v2same (@clip_pt FOps l 1%float) (snd l) = true.
+Proof. exact pinned_clip_refuted. Qed.
+Print Assumptions C04_pinned_clip_refuted.
+
 (* non-vacuity: the diagonal of a square cut at the centre of a one-level quadtree *)
 Definition ex_A : V2 ROps := mkV2 (-1) (-1).
 Definition ex_B : V2 ROps := mkV2 1 1.
@@ -117,8 +153,6 @@ Definition ex_tree : qt ROps (Seg ROps) :=
     (QLeaf (mkBox2 (mkV2 (-2) (-2)) ex_C) (mkV2 (-1) (-1)) 1 [(ex_A, ex_C)])
     QNil QNil
     (QLeaf (mkBox2 ex_C (mkV2 2 2)) (mkV2 1 1) 1 [(ex_C, ex_B)]).
-Lemma ex_abs_le (x h : R) : - h <= x <= h -> Rabs x <= h.
-Proof. intros H. unfold Rabs. destruct (Rcase_abs x); lra. Qed.
 Example C04_hyp_satisfiable : well_clipped ex_tree [(ex_A, ex_B)] /\ between ex_A ex_B ex_C (1 / 2).
 Proof.
   split.
@@ -134,7 +168,7 @@ Proof.
       repeat split; try exact I; repeat (apply Forall_cons || apply Forall_nil); cbn [fst snd vx vy]; lra.
     + unfold ex_tree. cbn [box_ok pieces app]. unfold seg_all, in_sq, ex_A, ex_B, ex_C.
       repeat split; try exact I; try lra; repeat (apply Forall_cons || apply Forall_nil); cbn [fst snd vx vy];
-        repeat split; apply ex_abs_le; lra.
+        repeat split; apply Rabs_le; lra.
     + constructor; [|constructor]. unfold nondeg, ex_A, ex_B; cbn [fst snd vx vy]. lra.
   - unfold between, ex_A, ex_B, ex_C; cbn [vx vy]. lra.
 Qed.
